@@ -14,7 +14,7 @@ import numpy as np
 from vf.models.base import Model
 
 REWARD_TWINS = {"n10s": "n10d", "n10d": "n10s", "n50d": "n50s", "n50s": "n50d", "q8d": "q8s", "q8s": "q8d",
-                "t12d": "t12s", "t12s": "t12d"}
+                "t12d": "t12s", "t12s": "t12d", "n5b4d": "n5b4s", "n5b4s": "n5b4d"}
 
 
 
